@@ -602,7 +602,7 @@ int main(int argc, char **argv)
         ai++;
     }
     if (argc - ai < 2) { fprintf(stderr, "usage: %s [--nofork] [--timeout S] script trace\n", argv[0]); return 2; }
-    FILE *in = fopen(argv[ai], "r"); if (!in) { perror(argv[ai]); return 2; }
+    static FILE *in; in = fopen(argv[ai], "r"); if (!in) { perror(argv[ai]); return 2; }
     OUT = fopen(argv[ai + 1], "a"); if (!OUT) { perror(argv[ai + 1]); return 2; }
     setvbuf(OUT, NULL, _IOLBF, 1 << 16);
     int cap = 0; ssize_t len;
@@ -621,7 +621,10 @@ int main(int argc, char **argv)
             if (nofork) { run_scenario(); fprintf(OUT, "{\"e\":\"Done\",\"id\":\"%s\",\"status\":\"ok\",\"sig\":0,\"code\":0}\n", g_id); }
             else {
                 pid_t pid = fork();
-                if (pid == 0) { alarm(timeout); run_scenario(); fflush(OUT); _exit(0); }
+                if (pid == 0) {
+                    close(fileno(in));      /* the library may call exit(): its flush of input streams must not move the parent's script position */
+                    alarm(timeout); run_scenario(); fflush(OUT); _exit(0);
+                }
                 int st = 0; waitpid(pid, &st, 0);
                 if (WIFSIGNALED(st)) fprintf(OUT, "{\"e\":\"Done\",\"id\":\"%s\",\"status\":\"%s\",\"sig\":%d,\"code\":0,\"pid\":%d}\n", g_id, WTERMSIG(st) == SIGALRM ? "timeout" : "crash", WTERMSIG(st), (int)pid);
                 else if (WEXITSTATUS(st) == 98) { fprintf(stderr, "sluh: script error in %s\n", g_id); return 2; }
